@@ -284,6 +284,14 @@ def gen_coll_evp(ctx, f, name=None):
         parts += [";"] + pos + ["=>", v]
     ctx.emit(" ".join(parts))
     ctx.edges[name] = f
+    used = set(v for _, v in mts) | {deflt}
+    if not hasattr(ctx, "flags"):
+        ctx.flags = {}
+    ctx.flags[name] = ("0" in used, "inf" in used)     # (may hold a finite 0, may hold +infinity)
+    if not hasattr(ctx, "finite_somewhere"):
+        ctx.finite_somewhere = set()
+    if mode == "min" and any(v != "inf" for _, v in mts):
+        ctx.finite_somewhere.add(name)
     return name
 
 
@@ -552,6 +560,120 @@ def gen_C10(rng):
             ctx.emit("unary %s %s copy %s" % (m, fa.name, n))
             ctx.edges[m] = fa
             ctx.emit("eq %s %s" % (m, a))
+    return ctx.text()
+
+
+def gen_C10_ev(rng):
+    """COPY with EV+ sources and targets (sets and relations), mixed with
+    multi-terminal forests of every range; there-and-back copies"""
+    ctx = Ctx(rng)
+    rel = rng.random() < 0.5
+    d = preamble(ctx, rel, ranges=("bool", "int", "int", "real"), nforests=rng.choice([2, 3]))
+    rules = RULES_REL if rel else RULES_SET
+    evs = []
+    for i in range(rng.choice([1, 2])):
+        fe = Forest("E%d" % i, d, rel, "int", "evp", rng.choice(rules), rand_opts(rng))
+        ctx.emit(fe.decl())
+        evs.append(fe)
+    allf = ctx.forests + evs
+    for _ in range(rng.randint(1, 3)):
+        gen_coll_evp(ctx, rng.choice(evs))
+    for _ in range(rng.randint(1, 3)):
+        gen_leaf(ctx, rng.choice(ctx.forests))
+    flags = getattr(ctx, "flags", {})
+
+    def allowed(a, fr):
+        fa = ctx.edges[a]
+        # recorded findings (corpus/C10): identity-reduced MT source into EV+,
+        # and +infinity copied into a multi-terminal forest
+        if fa.lab == "mt" and fr.lab == "evp" and fa.rule == "ir":
+            return False
+        if fa.lab == "evp" and fr.lab == "mt" and flags.get(a, (True, True))[1]:
+            return False
+        return True
+
+    def copy(a, fr):
+        n = ctx.fresh()
+        ctx.emit("unary %s %s copy %s" % (n, fr.name, a))
+        ctx.edges[n] = fr
+        if fr.lab == "evp":
+            flags[n] = flags[a] if ctx.edges[a].lab == "evp" else (True, False)
+        return n
+
+    for _ in range(rng.randint(4, 10)):
+        names = list(ctx.edges)
+        a = rng.choice(names)
+        fa = ctx.edges[a]
+        fr = rng.choice(evs) if (fa.lab == "mt" and rng.random() < 0.7) else rng.choice(allf)
+        if not allowed(a, fr):
+            continue
+        n = copy(a, fr)
+        if rng.random() < 0.5 and allowed(n, fa):
+            m = copy(n, fa)
+            ctx.emit("eq %s %s" % (m, a))
+    ctx.flags = flags
+    return ctx.text()
+
+
+def gen_C05_ev(rng):
+    """element-wise arithmetic and comparisons on EV+ forests (with +infinity);
+    the undefined scalar cases must raise the documented errors"""
+    ctx = Ctx(rng)
+    rel = rng.random() < 0.35
+    d = preamble(ctx, rel, ranges=("bool", "int"), nforests=2)
+    rules = RULES_REL if rel else RULES_SET
+    evs = []
+    for i in range(rng.choice([1, 2, 2])):
+        fe = Forest("E%d" % i, d, rel, "int", "evp", rng.choice(rules), rand_opts(rng))
+        ctx.emit(fe.decl())
+        evs.append(fe)
+    for _ in range(rng.randint(2, 4)):
+        gen_coll_evp(ctx, rng.choice(evs))
+    flags = ctx.flags
+    total = False
+    if rng.random() < 0.5:
+        # a nowhere-infinite, nowhere-zero operand: makes minus/div/mod defined
+        f = rng.choice(evs)
+        n = ctx.fresh()
+        ctx.emit("const %s %s %d" % (n, f.name, rng.choice([1, 2, 3])))
+        ctx.edges[n] = f
+        flags[n] = (False, False)
+        total = n
+    arith = ["plus", "plus", "minus", "mult", "max", "min", "min", "div", "mod"]
+    comps = ["eq", "ne", "lt", "le", "gt", "ge"]
+    for _ in range(rng.randint(4, 10)):
+        names = [e for e in ctx.edges if ctx.edges[e].lab == "evp"]
+        a, b = rng.choice(names), rng.choice(names)
+        if total and rng.random() < 0.4:
+            b = total
+        n = ctx.fresh()
+        if rng.random() < 0.3:
+            fr = rng.choice(ctx.forests)
+            ctx.emit("apply %s %s %s %s %s" % (n, fr.name, rng.choice(comps), a, b))
+            ctx.edges[n] = fr
+        else:
+            fr = rng.choice(evs)
+            op = rng.choice(arith)
+            (a0, ai), (b0, bi) = flags[a], flags[b]
+            # recorded findings (corpus/C05): 0 x +infinity, and g/g, g mod g
+            if op == "mult" and ((a0 and bi) or (b0 and ai)):
+                op = "plus"
+            # equal-node shortcuts (recorded findings, corpus/C05/evplus-*-equal-operands): g-g,
+            # (g+c)-g, g/g, g mod g are answered from the edge values alone even where the
+            # operation is undefined: only generate operand pairs whose nodes must differ
+            if op == "minus" and bi and ai:
+                op = "plus"
+            if op in ("div", "mod") and not (flags[b] == (False, False) or flags[a] == (False, False)):
+                op = "min"
+            ctx.emit("apply %s %s %s %s %s" % (n, fr.name, op, a, b))
+            ctx.edges[n] = fr
+            flags[n] = {
+                "plus": (a0 and b0, ai or bi), "max": (a0 and b0, ai or bi),
+                "mult": (a0 or b0, ai or bi), "min": (a0 or b0, ai and bi),
+            }.get(op, (True, ai))
+        # operands unchanged
+        if rng.random() < 0.3:
+            ctx.emit("show %s" % a)
     return ctx.text()
 
 
